@@ -31,7 +31,7 @@ func (c *Broadcast) HoldLock(cb func(broadcast func(), getWaitCh func() <-chan s
 // TryHoldLock attempts to lock the mutex and call the callback.
 // It returns true if the lock was acquired and the callback was called, false otherwise.
 func (c *Broadcast) TryHoldLock(cb func(broadcast func(), getWaitCh func() <-chan struct{})) bool {
-	verifhook.Lock(c)
+	verifhook.TryLock(c)
 	if !c.mtx.TryLock() {
 		verifhook.Unlocked(c)
 		return false
@@ -58,7 +58,7 @@ func (c *Broadcast) HoldLockMaybeAsync(cb func(broadcast func(), getWaitCh func(
 	}
 
 	// fast path: lock immediately
-	verifhook.Lock(c)
+	verifhook.TryLock(c)
 	if c.mtx.TryLock() {
 		holdBroadcastLock(false)
 	} else {
